@@ -2,7 +2,9 @@
  *   X <colon> <rgb> <op>...   a real xterm TickitTerm; observation "I:<start bytes> <bytes>..." per op
  *   D <colors> <op>...        term.c above a logging driver that reports <colors> colours;
  *                             observation "<delta>><final>" per op (pens in the compact syntax)
- * ops: s:<pen> (tickit_term_setpen)  c:<pen> (tickit_term_chpen) */
+ * ops: s:<pen> (tickit_term_setpen)  c:<pen> (tickit_term_chpen), each with a FRESH pen object;
+ *      one pen object REUSED through the case: p:<pen> (tickit_pen_set_*_attr on it), k:<pen> (tickit_pen_clear_attr of the
+ *      attributes named; values ignored), S:- / C:- (tickit_term_setpen / chpen with it); p and k print "." */
 #include "xt_common.h"
 #include "tickit-termdrv.h"
 
@@ -72,18 +74,23 @@ int main(void)
     }
     else { printf("ERR layer\n"); continue; }
 
+    TickitPen *reuse = tickit_pen_new();
     for(int i = first; i < vh_ntok; i++) {
       char *f[4];
       char kind = vh_tok[i][0];
       int nf = xt_split(vh_tok[i], f, 4);
-      if(nf < 2 || (kind != 's' && kind != 'c')) { printf(" ERR"); continue; }
-      TickitPen *pen = xt_parse_pen(f[1]);
+      if(nf < 2 || !strchr("scpkSC", kind)) { printf(" ERR"); continue; }
+      if(kind == 'p') { xt_apply_pen(reuse, f[1]); printf(" ."); continue; }
+      if(kind == 'k') { xt_clear_attrs(reuse, f[1]); printf(" ."); continue; }
+      bool fresh = kind == 's' || kind == 'c';
+      TickitPen *pen = fresh ? xt_parse_pen(f[1]) : reuse;
       xt_reset();
-      if(kind == 'c') tickit_term_chpen(tt, pen); else tickit_term_setpen(tt, pen);
-      tickit_pen_unref(pen);
+      if(kind == 'c' || kind == 'C') tickit_term_chpen(tt, pen); else tickit_term_setpen(tt, pen);
+      if(fresh) tickit_pen_unref(pen);
       if(layer == 'X') { tickit_term_flush(tt); putchar(' '); xt_puthex(); }
     }
     printf("\n");
+    tickit_pen_unref(reuse);
     tickit_term_unref(tt);
   }
   return 0;
